@@ -53,6 +53,9 @@ Inductive case :=
         (panic_at : Z)                          (* -1 none, 0 constructor, k: k-th op (1-based) *)
         (reduces : list (list bucket))          (* buckets handed to fn by every Reduce, in order *)
         (final : option (Z * Z * list bucket))  (* offset, lastTime - t0, ring *)
+        (conc_ok : bool)                        (* every Add started while a Reduce was inside its callback waited for it:
+                                                   the driver's gated Reduce overlapped by (advance; Add) is encoded as the
+                                                   sequence Reduce; Advance; Add it must be equivalent to *)
 | SCase (window nbuckets thr : Z) (ops : list xsop) (panicked : bool) (rows : list srow)
 | ICase (http : bool) (guard : bool)              (* integration: RPC interceptor / HTTP handler (+RecoverHandler inside) *)
         (calls : list (bool * nat * Z))           (* scripted drop?, outcome / response shape, its argument *)
@@ -310,7 +313,7 @@ Definition u_ok (start after : Z) : bool := (u_lo start <=? after) && (after <=?
 (* ---------- entry points ---------- *)
 Definition model_ok (c : case) : bool :=
   match c with
-  | WCase n iv ign ops p rs fin => w_model_ok n iv ign ops p rs fin
+  | WCase n iv ign ops p rs fin conc => w_model_ok n iv ign ops p rs fin && conc
   | SCase w nb cpu ops p rows => s_model_ok w nb cpu ops p rows
   | ICase http guard calls rows => i_run http guard (mkcnt 0 0 0 0) calls rows
   | TCase ops ticks => list_eqb (list_eqb Z.eqb) (t_run 0 0 0 ops) ticks
@@ -319,7 +322,7 @@ Definition model_ok (c : case) : bool :=
 
 Definition spec_ok (c : case) : bool :=
   match c with
-  | WCase n iv ign ops p rs fin => w_spec_ok n iv ign ops rs
+  | WCase n iv ign ops p rs fin conc => w_spec_ok n iv ign ops rs && conc
   | SCase w nb cpu ops p rows => s_spec_ok w nb cpu ops p rows
   | ICase http guard calls rows => i_spec http guard 0 0 0 calls rows
   | TCase ops ticks => t_spec ops ticks
